@@ -468,6 +468,9 @@ pub fn run(ctx: &Ctx) {
     run_regress(ctx, SUBS);
     drive_enum(ctx, &SUBS[0], 8);
     drive_random(ctx, &SUBS[1], ctx.n(200_000, 10_000_000), 300);
+    if !ctx.quick() && !ctx.failed() {
+        crate::fuzzing::drive_fuzz(ctx, "decoder", 3_000_000);
+    }
 }
 
 pub fn finish(ctx: &Ctx) -> i32 {
